@@ -26,11 +26,14 @@
     client    `never_wrong_core_inflater`, `core_refines_tokens_inflater`,
               `lossless_any_blocks_repaired`, `lossless_any_blocks_pinned`
 
+  Dynamic blocks whose header uses the repeat codes 16/17/18, any complete code-length code and any
+  HCLEN (`Kind.dynRle`) are covered by the theorems below that quantify over `kind` and spelled
+  out in Properties/C06_InflateRle.lean.
+
   NOT proved (covered only by the differential test of `Inflate.inflateAll[Safe]` against zlib in
-  the C06 check): dynamic blocks whose header uses the repeat codes 16/17/18 or another
-  code-length code than the encoder's (sixteen 4-bit codes), and incomplete codes (zlib's
-  single-code distance tree, the empty distance code); what the inflater does on bytes that NO
-  encoder writes (truncated input, invalid codes: the error paths) is likewise only tested.
+  the C06 check): incomplete codes (zlib's single-code distance tree, the empty distance code);
+  what the inflater does on bytes that NO encoder writes (truncated input, invalid codes,
+  over-subscribed codes: the error paths) is likewise only tested.
 -/
 import Lomond.Properties.C06
 import Lomond.Proofs.InflateCorrect
